@@ -287,9 +287,41 @@ func (fv *FnVerifier) loopSpec(h *ssa.BasicBlock) *LoopSpec {
 // namesAt resolves source identifiers visible at block h (dominating definitions).
 func (fv *FnVerifier) namesAt(h *ssa.BasicBlock, st *State) map[string]Val {
 	names := map[string]Val{}
+	nilBound := map[string]types.Object{}
 	for k, v := range fv.names {
 		names[k] = v
 	}
+	defer func() {
+		// `x := T{...}` / `x := map[..]..{...}`: the only reference in the dominating blocks may be the declaration itself,
+		// which go/ssa records with the zero value; later references name the real value, defined before the loop
+		if len(nilBound) == 0 {
+			return
+		}
+		for _, b := range h.Parent().Blocks {
+			for _, in := range b.Instrs {
+				x, ok := in.(*ssa.DebugRef)
+				if !ok || x.IsAddr {
+					continue
+				}
+				name := debugRefName(x)
+				obj, pending := nilBound[name]
+				if !pending || x.Object() != obj {
+					continue
+				}
+				def, ok := x.X.(ssa.Instruction)
+				if !ok || def.Block() == nil || def.Block() == h || !def.Block().Dominates(h) {
+					continue
+				}
+				if _, isPhi := x.X.(*ssa.Phi); isPhi {
+					continue
+				}
+				if v, ok := fv.env[x.X]; ok {
+					names[name] = v
+					delete(nilBound, name)
+				}
+			}
+		}
+	}()
 	// dominator chain entry -> h
 	var chain []*ssa.BasicBlock
 	for b := h; b != nil; b = b.Idom() {
@@ -341,6 +373,11 @@ func (fv *FnVerifier) namesAt(h *ssa.BasicBlock, st *State) map[string]Val {
 					}
 				} else {
 					names[name] = v
+					if c, isC := x.X.(*ssa.Const); isC && c.IsNil() {
+						nilBound[name] = x.Object()
+					} else {
+						delete(nilBound, name)
+					}
 				}
 			}
 		}
